@@ -186,7 +186,7 @@ Print Assumptions ufunc_linear_flag_correct.
 
 (* T1 for functionals (odl/solvers/functional/functional.py, model C06/FModel.v):
    Functional.derivative(x) = InnerProductOperator(gradient(x)).  For EVERY tree of
-   the functional arithmetic -- L2NormSquared, L2Norm, L1Norm, Constant/Zero,
+   the functional arithmetic -- L2NormSquared, L2Norm, L1Norm, Constant/Zero, Rosenbrock,
    Left/RightScalarMult, Sum, ScalarSum, Translation, QuadraticPerturb, Product,
    Quotient, RightVectorMult, composition with a matrix operator -- on a space
    with ANY weighting w (rn(n) unweighted / constant / array weighting,
@@ -196,7 +196,8 @@ Print Assumptions ufunc_linear_flag_correct.
    L2Norm, no zero entry for L1Norm, divisor <> 0).
    [fok w f]: every composition with a MatrixOperator is between UNWEIGHTED spaces
    (its adjoint is the plain transpose; on weighted spaces the statement is
-   false -- recorded finding FunctionalComp-MatrixOperator-weighted-space).
+   false -- recorded finding FunctionalComp-MatrixOperator-weighted-space), and
+   RosenbrockFunctional only occurs on unweighted spaces (second finding below).
    [sdiff n phi x ell]: along every differentiable curve g through x with
    velocity d,  t |-> phi (g t)  has derivative  ell d  at 0. *)
 Theorem functional_gradient_is_derivative :
@@ -225,6 +226,15 @@ Theorem functional_gradient_weighted_composition_refuted :
   ~ sdiff (fdim bad_f) (feval sqrt [2] bad_f) [1] (fun d => wdot [2] d (fgrad sqrt [2] bad_f [1])).
 Proof. exact fgrad_weighted_comp_refuted. Qed.
 Print Assumptions functional_gradient_weighted_composition_refuted.
+
+(* Likewise RosenbrockFunctional: its gradient is the vector of partial derivatives whatever the
+   weighting, so [fok] asks for an unweighted space; on rn(2, weighting=2) the statement fails
+   (finding RosenbrockFunctional-weighted-space). *)
+Theorem rosenbrock_weighted_refuted :
+  fwt bad_r = true /\ length [2; 2] = fdim bad_r /\ fregular [2; 2] bad_r [0; 0] /\
+  ~ sdiff (fdim bad_r) (feval sqrt [2; 2] bad_r) [0; 0] (fun d => wdot [2; 2] d (fgrad sqrt [2; 2] bad_r [0; 0])).
+Proof. exact rosen_weighted_refuted. Qed.
+Print Assumptions rosenbrock_weighted_refuted.
 
 (* a weighted example without composition, and an unweighted one with a matrix composition *)
 Example functional_premises_hold :
